@@ -244,9 +244,13 @@ def run(ctx, repo, tier):
         val = cur[0].value
         uses_rot_inner = Poly.app("at", "vol_b", Poly.atom(last.idx)) in _atoms_polys(val)
         ok = ok and uses_rot_inner
-        ctx.check(ok, "LAYOUT", "C02.volumes.layout", "volumes are listed position-major, rotation-minor: index pos*n_b + rot (same cell "
+        plain = isinstance(val, Num) or (T._is_pw(val) and all(isinstance(p_.items[2], Num) for p_ in val.args))
+        if not plain and not ok:
+            ctx.inconclusive("LAYOUT", "C02.volumes.layout", "volume element has a form the layout rule does not read", vw, witness=vstr(val)[:300])
+        else:
+          ctx.check(ok, "LAYOUT", "C02.volumes.layout", "volumes are listed position-major, rotation-minor: index pos*n_b + rot (same cell "
                   "order as the matrices and the grid array)", vw, "for o_rot in pos_volumes: for b_rot in ori_volumes:",
-                  witness=f"loop extents (major -> minor): {[e_.pretty() for e_ in exts]}; rotation index is the fastest: {uses_rot_inner}")
+                    witness=f"loop extents (major -> minor): {[e_.pretty() for e_ in exts]}; rotation index is the fastest: {uses_rot_inner}")
         lo, li_ = nest[0], last
         if ok and len(nest) == 2 and isinstance(pvol, Grid) and len(pvol.dims) == 1:
             pel = None
